@@ -427,7 +427,10 @@ impl<L: Localize> TimeDomainIterator<L> {
 
         while self.curr_schedule.peek().map(|tr| tr.kind) == Some(curr_kind) {
             if let Some(max_interval_size) = self.opening_hours.ctx.approx_bound_interval_size {
-                if self.curr_date - start_date > max_interval_size + chrono::TimeDelta::days(1) {
+                // Only give up after some progress was made, whatever the bound is
+                if self.curr_date > start_date
+                    && self.curr_date - start_date > max_interval_size + chrono::TimeDelta::days(1)
+                {
                     return;
                 }
             }
